@@ -204,6 +204,14 @@ class Crate:
         i = node.get("mb")
         return self.mbs[i] if i is not None else []
 
+    def macros(self, node):
+        """Names of the macros a node was expanded from (innermost first), without kind prefix or `$crate::` path."""
+        return [m.split(":", 1)[-1].rsplit("::", 1)[-1] for m in self.mb(node)]
+
+    def src_loc(self, node):
+        """Location in the source as written: the outermost call site for code from macro expansion."""
+        return self.loc(node.get("cs") or node.get("sp"))
+
     def body(self, id_):
         bs = self.bodies.get(id_)
         if not bs:
